@@ -44,7 +44,7 @@ from vf.gen import species as SG
 from vf.ref import poly
 
 ID = 'C13'
-N = {'quick': 7500, 'thorough': 300000}
+N = {'quick': 6500, 'thorough': 300000}
 NT_RULE = ('species class x phase spelling x 0-4 user supplied models in random order (GasPressureAdj present or '
            'not, PiecewiseCovEffect on 1-3 species j with coverages in <name_j>_kwargs, ConstantMode) x '
            'add_gas_P_adj x misc_models None/[]/list x copy/deepcopy x 0-3 from_dict / JSON cycles x list shared '
